@@ -9,16 +9,22 @@ was not a rejection, the server's record of the client's subscription equals wha
 asked for."
 
 `quiescent_record_matches`: for EVERY finite schedule of client subscription changes, client
-ACKs/NACKs, server request handling, spontaneous server pushes and warming marks (any interleaving,
+ACKs/NACKs, server request handling - where an answer either goes out or does NOT (the generator has
+nothing to send, or the send fails) -, spontaneous server pushes and warming marks (any interleaving,
 any nonces, a client that may have retained any nonce from an earlier stream), whenever both
 channels are empty, the client has spoken and its last message was not a NACK, the server's record
 equals the client's current names.
+
+`FullStatement f` is that sentence for the code with the repairs `f`; `quiescent_record_matches` proves it
+for the code in /repo, `full_statement_witness_unfixed` refutes it for the code before repair F-C04-3
+(an answer with nothing to send leaves a watch with an empty `NonceSent`; the client's next request,
+echoing the nonce it retains, was dropped as stale).
 -/
 namespace IstioModel.C04
 
 structure Inv (t : Ty) (y : Sys) : Prop where
   tys : ∀ m ∈ y.c2s, m.ty = t
-  nonce : ∀ w, y.srv t = some w → w.nonceSent = lastOr y.cnonce y.s2c
+  nonce : ∀ w, y.srv t = some w → w.nonceSent = "" ∨ w.nonceSent = lastOr y.cnonce y.s2c
   lastMsg : ∀ m, y.c2s.getLast? = some m →
     m.names = y.cnames ∧ m.nonce = y.cnonce ∧ (y.lastNack = false → m.err = none)
   settled : y.c2s = [] →
@@ -32,32 +38,68 @@ theorem inv_init (t : Ty) (srv : State) (names : List String) (nonce : String) (
   settled := by intro _; right; left; rfl
 
 /-- A silent answer never changes the nonce on record. -/
+theorem silent_keeps_nonce_noerr (s : State) (m : Req) (sub : List String) (s' : State) (he : m.err = none)
+    (h : shouldRespond s m = .out false sub s') (w' : WR) (hw' : s' m.ty = some w') :
+    ∃ w, s m.ty = some w ∧ w'.nonceSent = w.nonceSent := by
+  cases hu : m.unsub
+  · cases hp : s m.ty with
+    | none =>
+      rw [first_request_or_reconnect_responds s m hp he hu] at h
+      injection h with hb; cases hb
+    | some prev =>
+      by_cases hn : m.nonce = ""
+      · rw [empty_nonce_responds s m he hu hn] at h
+        injection h with hb; cases hb
+      · by_cases hst : m.nonce = prev.nonceSent
+        · rw [match_branch s m prev he hu hp hn hst] at h
+          have hacked : acked s m prev = s' := by
+            repeat' split at h
+            all_goals (injection h)
+          rw [← hacked] at hw'
+          simp [acked] at hw'
+          exact ⟨prev, rfl, by rw [← hw']⟩
+        · by_cases hsent : prev.nonceSent = ""
+          · rw [unsent_watch_request_responds s m prev he hu hp hsent] at h
+            injection h with hb; cases hb
+          · rw [stale_nonce_silent s m prev he hu hp hn hsent hst] at h
+            injection h with _ _ hs
+            rw [← hs, hp] at hw'
+            exact ⟨prev, rfl, by rw [Option.some.inj hw']⟩
+  · rw [unsubscribe_deletes_watch s m he hu] at h
+    injection h with _ _ hs
+    rw [← hs] at hw'
+    simp at hw'
+
 theorem silent_keeps_nonce (s : State) (m : Req) (sub : List String) (s' : State)
     (h : shouldRespond s m = .out false sub s') (w' : WR) (hw' : s' m.ty = some w') :
     ∃ w, s m.ty = some w ∧ w'.nonceSent = w.nonceSent := by
-  cases he : m.err with
-  | some msg =>
-    rw [nack_silent s m msg he] at h
+  rcases respond_cases s m with ⟨msg, w, _, hw, hr⟩ | heq
+  · rw [hr] at h
     injection h with _ _ hs
-    cases hp : s m.ty with
-    | none =>
-      simp only [hp] at hs
-      rw [← hs, hp] at hw'; cases hw'
-    | some w =>
-      simp only [hp] at hs
-      rw [← hs] at hw'
-      simp at hw'
-      exact ⟨w, rfl, by rw [← hw']⟩
-  | none =>
-    cases hu : m.unsub
-    · cases hp : s m.ty with
-      | none =>
-        rw [first_request_or_reconnect_responds s m hp he hu] at h
-        injection h with hb; cases hb
-      | some prev =>
-        by_cases hn : m.nonce = ""
-        · rw [empty_nonce_responds s m he hu hn] at h
-          injection h with hb; cases hb
+    rw [← hs] at hw'
+    simp at hw'
+    exact ⟨w, hw, by rw [← hw']⟩
+  · rw [heq] at h
+    exact silent_keeps_nonce_noerr s m.clean sub s' rfl h w' hw'
+
+/-- An answer leaves the nonce on record alone, or starts a watch nothing was sent on yet. -/
+theorem answered_nonce_noerr (s : State) (m : Req) (sub : List String) (s' : State) (he : m.err = none)
+    (h : shouldRespond s m = .out true sub s') (w' : WR) (hw' : s' m.ty = some w') :
+    w'.nonceSent = "" ∨ ∃ w, s m.ty = some w ∧ w'.nonceSent = w.nonceSent := by
+  have hnew : shouldRespond s m = .out true [] (newWatched s m.ty m.names) → w'.nonceSent = "" := by
+    intro h2
+    rw [h2] at h
+    injection h with _ _ hs
+    rw [← hs, newWatched_self] at hw'
+    rw [← Option.some.inj hw']
+  cases hu : m.unsub
+  · cases hp : s m.ty with
+    | none => exact Or.inl (hnew (first_request_or_reconnect_responds s m hp he hu))
+    | some prev =>
+      by_cases hn : m.nonce = ""
+      · exact Or.inl (hnew (empty_nonce_responds s m he hu hn))
+      · by_cases hsent : prev.nonceSent = ""
+        · exact Or.inl (hnew (unsent_watch_request_responds s m prev he hu hp hsent))
         · by_cases hst : m.nonce = prev.nonceSent
           · rw [match_branch s m prev he hu hp hn hst] at h
             have hacked : acked s m prev = s' := by
@@ -65,21 +107,32 @@ theorem silent_keeps_nonce (s : State) (m : Req) (sub : List String) (s' : State
               all_goals (injection h)
             rw [← hacked] at hw'
             simp [acked] at hw'
-            exact ⟨prev, rfl, by rw [← hw']⟩
-          · rw [stale_nonce_silent s m prev he hu hp hn hst] at h
-            injection h with _ _ hs
-            rw [← hs, hp] at hw'
-            exact ⟨prev, rfl, by rw [Option.some.inj hw']⟩
-    · rw [unsubscribe_deletes_watch s m he hu] at h
-      injection h with _ _ hs
-      rw [← hs] at hw'
-      simp at hw'
+            exact Or.inr ⟨prev, rfl, by rw [← hw']⟩
+          · rw [stale_nonce_silent s m prev he hu hp hn hsent hst] at h
+            injection h with hb; cases hb
+  · rw [unsubscribe_deletes_watch s m he hu] at h
+    injection h with hb; cases hb
+
+theorem answered_nonce (s : State) (m : Req) (sub : List String) (s' : State)
+    (h : shouldRespond s m = .out true sub s') (w' : WR) (hw' : s' m.ty = some w') :
+    w'.nonceSent = "" ∨ ∃ w, s m.ty = some w ∧ w'.nonceSent = w.nonceSent :=
+  answered_nonce_noerr s m.clean sub s' rfl (answered_clean s m sub s' h) w' hw'
+
+/-- An answered request is not an unsubscribe, and leaves its names on record. -/
+theorem answered_record (s : State) (m : Req) (sub : List String) (s' : State)
+    (h : shouldRespond s m = .out true sub s') : recordMatches s' m.ty m.names := by
+  obtain ⟨w, hw, _, hnames⟩ := responded_state_clean s m sub s' h
+  have hu : m.unsub = false := answered_not_unsub s m sub s' h
+  unfold recordMatches
+  have : (m.names.isEmpty && !m.ty.wildcard) = false := by simpa [Req.unsub] using hu
+  simp only [this, Bool.false_eq_true, if_false]
+  exact ⟨w, hw, hnames⟩
 
 /-- The settled clause when the server silently handles the client's last message. -/
 theorem silent_last_settles (t : Ty) (s : State) (m : Req) (sub : List String) (s' : State)
     (cnames : List String) (cnonce : String) (s2c : List String)
     (hty : m.ty = t) (hnames : m.names = cnames) (hnonce : m.nonce = cnonce) (herr : m.err = none)
-    (hinv : ∀ w, s t = some w → w.nonceSent = lastOr cnonce s2c)
+    (hinv : ∀ w, s t = some w → w.nonceSent = "" ∨ w.nonceSent = lastOr cnonce s2c)
     (h : shouldRespond s m = .out false sub s') :
     s2c ≠ [] ∨ recordMatches s' t cnames := by
   subst hty
@@ -101,10 +154,15 @@ theorem silent_last_settles (t : Ty) (s : State) (m : Req) (sub : List String) (
             rw [← hnames]; simpa [Req.unsub] using hu
           simp only [hu', Bool.false_eq_true, if_false]
           rw [← hnames]; exact this
-        · left
-          apply lastOr_ne_nil cnonce
-          rw [← hinv prev hp, ← hnonce]
-          exact fun e => hst e.symm
+        · by_cases hsent : prev.nonceSent = ""
+          · rw [unsent_watch_request_responds s m prev herr hu hp hsent] at h
+            injection h with hb; cases hb
+          · left
+            apply lastOr_ne_nil cnonce
+            rcases hinv prev hp with h1 | h1
+            · exact absurd h1 hsent
+            · rw [← h1, ← hnonce]
+              exact fun e => hst e.symm
   · right
     rw [unsubscribe_deletes_watch s m herr hu] at h
     injection h with _ _ hs
@@ -119,81 +177,81 @@ theorem inv_step (t : Ty) (y : Sys) (e : Step) (h : Inv t y) : Inv t (step t y e
   | clientChange names =>
     refine ⟨?_, ?_, ?_, ?_⟩
     · intro m hm
-      simp only [step, List.mem_append, List.mem_singleton] at hm
+      simp only [step, stepR, List.mem_append, List.mem_singleton] at hm
       rcases hm with hm | hm
       · exact h.tys m hm
       · subst hm; rfl
     · exact h.nonce
     · intro m hm
-      simp only [step, getLast?_append_singleton, Option.some.injEq] at hm
+      simp only [step, stepR, getLast?_append_singleton, Option.some.injEq] at hm
       subst hm
       exact ⟨rfl, rfl, fun _ => rfl⟩
-    · intro hc; simp [step] at hc
+    · intro hc; simp [step, stepR] at hc
   | clientRecv nack =>
     cases hs : y.s2c with
-    | nil => simpa [step, hs] using h
+    | nil => simpa [step, stepR, hs] using h
     | cons n rest =>
       refine ⟨?_, ?_, ?_, ?_⟩
       · intro m hm
-        simp only [step, hs, List.mem_append, List.mem_singleton] at hm
+        simp only [step, stepR, hs, List.mem_append, List.mem_singleton] at hm
         rcases hm with hm | hm
         · exact h.tys m hm
         · subst hm; rfl
       · intro w hw
-        simp only [step, hs] at hw ⊢
+        simp only [step, stepR, hs] at hw ⊢
         have := h.nonce w hw
         rw [hs] at this
         exact this
       · intro m hm
-        simp only [step, hs, getLast?_append_singleton, Option.some.injEq] at hm
+        simp only [step, stepR, hs, getLast?_append_singleton, Option.some.injEq] at hm
         subst hm
-        refine ⟨by simp [step, hs, clientMsg], by simp [step, hs, clientMsg], ?_⟩
+        refine ⟨by simp [step, stepR, hs, clientMsg], by simp [step, stepR, hs, clientMsg], ?_⟩
         intro hl
-        simp only [step, hs] at hl
+        simp only [step, stepR, hs] at hl
         cases nack with
         | none => rfl
         | some _ => simp at hl
-      · intro hc; simp [step, hs] at hc
+      · intro hc; simp [step, stepR, hs] at hc
   | serverPush n =>
     by_cases hn : n = ""
-    · simpa [step, hn] using h
+    · simpa [step, stepR, hn] using h
     · cases hp : y.srv t with
-      | none => simpa [step, hn, hp] using h
+      | none => simpa [step, stepR, hn, hp] using h
       | some w0 =>
         refine ⟨?_, ?_, ?_, ?_⟩
-        · simpa [step, hn, hp] using h.tys
+        · simpa [step, stepR, hn, hp] using h.tys
         · intro w hw
-          simp only [step, hn, if_false, hp] at hw ⊢
+          simp only [step, stepR, hn, if_false, hp] at hw ⊢
           rw [lastOr_append]
           obtain ⟨w1, hw1, hn1⟩ := send_ok_records_nonce y.srv t n hn
-          rw [hw1] at hw; cases hw; exact hn1
-        · simpa [step, hn, hp] using h.lastMsg
-        · intro _; left; simp [step, hn, hp]
+          rw [hw1] at hw; cases hw; exact Or.inr hn1
+        · simpa [step, stepR, hn, hp] using h.lastMsg
+        · intro _; left; simp [step, stepR, hn, hp]
   | envAlways =>
     cases hp : y.srv t with
-    | none => simpa [step, hp] using h
+    | none => simpa [step, stepR, hp] using h
     | some w0 =>
       refine ⟨?_, ?_, ?_, ?_⟩
-      · simpa [step, hp] using h.tys
+      · simpa [step, stepR, hp] using h.tys
       · intro w hw
-        simp only [step, hp] at hw ⊢
+        simp only [step, stepR, hp] at hw ⊢
         simp at hw
         rw [← hw]
         exact h.nonce w0 hp
-      · simpa [step, hp] using h.lastMsg
+      · simpa [step, stepR, hp] using h.lastMsg
       · intro hc
-        simp only [step, hp] at hc ⊢
+        simp only [step, stepR, hp] at hc ⊢
         rcases h.settled hc with h1 | h1 | h1 | h1
         · exact Or.inl h1
         · exact Or.inr (Or.inl h1)
         · exact Or.inr (Or.inr (Or.inl h1))
         · exact Or.inr (Or.inr (Or.inr (recordMatches_set_always _ _ _ _ hp h1)))
-  | serverRecv n =>
+  | serverRecv n deliver =>
     cases hc : y.c2s with
-    | nil => simpa [step, hc] using h
+    | nil => simpa [step, stepR, hc] using h
     | cons m rest =>
       by_cases hn : n = ""
-      · simpa [step, hc, hn] using h
+      · simpa [step, stepR, hc, hn] using h
       · have hmt : m.ty = t := h.tys m (by simp [hc])
         have htys' : ∀ m' ∈ rest, m'.ty = t := fun m' hm' => h.tys m' (by simp [hc, hm'])
         have hlast' : ∀ m', rest.getLast? = some m' →
@@ -204,33 +262,56 @@ theorem inv_step (t : Ty) (y : Sys) (e : Step) (h : Inv t y) : Inv t (step t y e
           cases rest with
           | nil => simp at hm'
           | cons a as => simpa [List.getLast?_cons_cons] using hm'
+        have hr0 : shouldRespondR {} y.srv m = shouldRespond y.srv m := rfl
         cases hr : shouldRespond y.srv m with
         | crash => exact absurd hr (never_crashes _ _)
         | out b sub s' =>
           cases b with
           | true =>
-            refine ⟨?_, ?_, ?_, ?_⟩
-            · simpa [step, hc, hn, hr] using htys'
-            · intro w hw
-              simp only [step, hc, hn, if_false, hr] at hw ⊢
-              rw [lastOr_append]
-              obtain ⟨w1, hw1, hn1⟩ := send_ok_records_nonce s' t n hn
-              rw [hw1] at hw; cases hw; exact hn1
-            · simpa [step, hc, hn, hr] using hlast'
-            · intro _; left; simp [step, hc, hn, hr]
+            cases deliver with
+            | true =>
+              refine ⟨?_, ?_, ?_, ?_⟩
+              · simpa [step, stepR, hc, hn, hr0, hr] using htys'
+              · intro w hw
+                simp only [step, stepR, hc, hn, if_false, hr0, hr, if_true] at hw ⊢
+                rw [lastOr_append]
+                obtain ⟨w1, hw1, hn1⟩ := send_ok_records_nonce s' t n hn
+                rw [hw1] at hw; cases hw; exact Or.inr hn1
+              · simpa [step, stepR, hc, hn, hr0, hr] using hlast'
+              · intro _; left; simp [step, stepR, hc, hn, hr0, hr]
+            | false =>
+              -- answered, but nothing went out
+              refine ⟨?_, ?_, ?_, ?_⟩
+              · simpa [step, stepR, hc, hn, hr0, hr] using htys'
+              · intro w hw
+                simp only [step, stepR, hc, hn, if_false, hr0, hr, Bool.false_eq_true] at hw ⊢
+                rw [← hmt] at hw
+                rcases answered_nonce y.srv m sub s' hr w hw with h1 | ⟨w0, hw0, hn0⟩
+                · exact Or.inl h1
+                · rw [hn0]
+                  rw [hmt] at hw0
+                  exact h.nonce w0 hw0
+              · simpa [step, stepR, hc, hn, hr0, hr] using hlast'
+              · intro hrest
+                simp only [step, stepR, hc, hn, if_false, hr0, hr, Bool.false_eq_true] at hrest ⊢
+                subst hrest
+                obtain ⟨hnames, _, _⟩ := h.lastMsg m (by simp [hc])
+                have := answered_record y.srv m sub s' hr
+                rw [hmt, hnames] at this
+                exact Or.inr (Or.inr (Or.inr this))
           | false =>
             refine ⟨?_, ?_, ?_, ?_⟩
-            · simpa [step, hc, hn, hr] using htys'
+            · simpa [step, stepR, hc, hn, hr0, hr] using htys'
             · intro w hw
-              simp only [step, hc, hn, if_false, hr] at hw ⊢
+              simp only [step, stepR, hc, hn, if_false, hr0, hr] at hw ⊢
               rw [← hmt] at hw
               obtain ⟨w0, hw0, hn0⟩ := silent_keeps_nonce y.srv m sub s' hr w hw
               rw [hn0]
               rw [hmt] at hw0
               exact h.nonce w0 hw0
-            · simpa [step, hc, hn, hr] using hlast'
+            · simpa [step, stepR, hc, hn, hr0, hr] using hlast'
             · intro hrest
-              simp only [step, hc, hn, if_false, hr] at hrest ⊢
+              simp only [step, stepR, hc, hn, if_false, hr0, hr] at hrest ⊢
               subst hrest
               obtain ⟨hnames, hnonce, herr⟩ := h.lastMsg m (by simp [hc])
               cases hl : y.lastNack with
@@ -246,7 +327,20 @@ theorem inv_run (t : Ty) (y : Sys) (steps : List Step) (h : Inv t y) : Inv t (ru
   | nil => exact h
   | cons e es ih => exact ih (step t y e) (inv_step t y e h)
 
-/-- **Record = last request, for every exchange.** -/
+/-- The last sentence of the property for the code with the repairs `f`: after EVERY exchange from a fresh
+    stream, whenever both channels are empty, the client has spoken and its last message was not a rejection,
+    the record equals the client's names. -/
+def FullStatement (f : Repairs) : Prop :=
+  ∀ (t : Ty) (srv : State) (names : List String) (nonce : String), srv t = none → ∀ (steps : List Step),
+    (runR f t (Sys.init srv names nonce) steps).c2s = [] → (runR f t (Sys.init srv names nonce) steps).s2c = [] →
+    (runR f t (Sys.init srv names nonce) steps).sentAny = true →
+    (runR f t (Sys.init srv names nonce) steps).lastNack = false →
+      recordMatches (runR f t (Sys.init srv names nonce) steps).srv t (runR f t (Sys.init srv names nonce) steps).cnames
+
+theorem runR_default (t : Ty) (y : Sys) (steps : List Step) : runR {} t y steps = run t y steps := rfl
+
+/-- **Record = last request, for every exchange** - including exchanges in which an answer had nothing to send
+    or could not be sent. -/
 theorem quiescent_record_matches (t : Ty) (srv : State) (names : List String) (nonce : String)
     (hfresh : srv t = none) (steps : List Step) :
     let y := run t (Sys.init srv names nonce) steps
@@ -260,15 +354,46 @@ theorem quiescent_record_matches (t : Ty) (srv : State) (names : List String) (n
   · rw [hnack] at h1; cases h1
   · exact h1
 
+theorem full_statement : FullStatement {} := by
+  intro t srv names nonce hfresh steps
+  simp only [runR_default]
+  exact quiescent_record_matches t srv names nonce hfresh steps
+
+/-- The exchange of finding F-C04-3: the client subscribes to `c` (answered, acknowledged), unsubscribes,
+    subscribes to `c` again echoing the nonce it retains - the answer has nothing to send -, then asks for `c, d`. -/
+def unsentTrace : List Step :=
+  [.clientChange ["c"], .serverRecv "n1" true, .clientRecv none, .serverRecv "x" true,
+   .clientChange [], .serverRecv "x" true,
+   .clientChange ["c"], .serverRecv "n2" false,
+   .clientChange ["c", "d"], .serverRecv "n3" true]
+
+/-- Before repair F-C04-3 the last sentence was FALSE: on `unsentTrace` everything is processed, the last message
+    was not a rejection, the client asked for `c, d` - and the record is `c`. -/
+theorem full_statement_witness_unfixed : ¬ FullStatement { unsentNew := false } := by
+  intro h
+  have hrec := h .sds State.empty [] "" rfl unsentTrace (by decide) (by decide) (by decide) (by decide)
+  have hs : (runR { unsentNew := false } .sds (Sys.init State.empty [] "") unsentTrace).srv .sds = some { names := ["c"] } := by
+    decide
+  have hc : (runR { unsentNew := false } .sds (Sys.init State.empty [] "") unsentTrace).cnames = ["c", "d"] := by decide
+  unfold recordMatches at hrec
+  rw [hc, hs] at hrec
+  simp [Ty.wildcard] at hrec
+
 /-- Non-vacuity: a concrete exchange (reconnecting client with a retained nonce `old`, subscribes
     to `a`, gets a response, ACKs, then adds `b`, gets a response, ACKs) reaches a quiescent state
     meeting all hypotheses, with the record equal to `[a, b]`. -/
 example :
     let y := run .eds (Sys.init State.empty [] "old")
-      [.clientChange ["a"], .serverRecv "n1", .clientRecv none, .serverRecv "x",
-       .clientChange ["a", "b"], .serverRecv "n2", .clientRecv none, .serverRecv "x"]
+      [.clientChange ["a"], .serverRecv "n1" true, .clientRecv none, .serverRecv "x" true,
+       .clientChange ["a", "b"], .serverRecv "n2" true, .clientRecv none, .serverRecv "x" true]
     y.c2s = [] ∧ y.s2c = [] ∧ y.sentAny = true ∧ y.lastNack = false ∧
       (∃ w, y.srv .eds = some w ∧ w.names = ["a", "b"]) := by
+  decide
+
+/-- ... and on `unsentTrace` the code in /repo ends with `c, d` on record (answered, sent, still to be ACKed). -/
+example :
+    let y := run .sds (Sys.init State.empty [] "") unsentTrace
+    y.c2s = [] ∧ (∃ w, y.srv .sds = some w ∧ w.names = ["c", "d"]) := by
   decide
 
 end IstioModel.C04
